@@ -523,6 +523,11 @@ func (c *Canon) inlinable(fn *ssa.Function) bool {
 			return false
 		case *ssa.DebugRef:
 		case *ssa.Call:
+			// a wrapper around a private helper keeps its own (exported, stable) name: expanding
+			// it would put the helper's private name into canonical forms
+			if callee := x.Call.StaticCallee(); callee != nil && IsModPkg(FnPkgPath(callee)) && callee.Object() != nil && !callee.Object().Exported() {
+				return false
+			}
 			// every call must feed the result: a call made only for its effect
 			// would disappear from the canonical form
 			used := false
